@@ -2,6 +2,7 @@
 // P rank threads for every file x algorithm x flag combination. A rank that returns while others wait in a collective
 // is a deadlock STATE found by the baton scheduler (no timeout involved).
 #include "common/runner.hpp"
+#include <cmath>
 #include "common/explore.hpp"
 #include <iostream>
 #include <sstream>
@@ -70,7 +71,7 @@ int main(int argc, char **argv) {
             auto p = so.find("MCB weight = ");
             if (p == std::string::npos) { R.violation({site, "no-weight-printed", cs_of(c), "no 'MCB weight' line"}); return; }
             double got = atof(so.c_str() + p + 13);
-            if (got != fs.weight) R.violation({site, "wrong-weight", cs_of(c), "printed weight " + std::to_string(got) + ", optimum " + std::to_string(fs.weight)});
+            if (std::fabs(got - fs.weight) > 5e-6 * std::max(1.0, std::fabs(fs.weight))) R.violation({site, "wrong-weight", cs_of(c), "printed weight " + std::to_string(got) + ", optimum " + std::to_string(fs.weight)});
         }
     };
     if (A.has("replay-case")) {
